@@ -23,7 +23,7 @@ PO_NOTE = "sequential consistency; buffers summarised on their length counter; k
 SEQ_NOTE = "kernel calls replaced by nondeterministic stubs with stated contracts; counterexamples re-executed concretely in the interpreter (stubs cannot be installed in the native build)"
 CLAIMED.update({
  "C05": dict(cat="model_checking", tech="partial-order (event/clock) SMT encoding of per-thread symbolic executions of go/ssa",
-   text="The real Close/onClose/onHup/closeCallback/onProcess/locker/FDOperator.Control code is executed symbolically per thread (poller with hang-up goroutine, 1-2 closers, handler tasks spawned through runner.RunTask, handler consuming/closing/panicking; one close callback in the handler configurations, two in the handler-less one); every interleaving is a clock assignment; exactly-once, ordering and no-overlap monitors are decided as safety queries, 'everything torn down' as a quiescence query.",
+   text="The real Close/onClose/onHup/closeCallback/onProcess/locker/FDOperator.Control code is executed symbolically per thread (poller with hang-up goroutine, 1-2 closers, handler tasks spawned through runner.RunTask, handler consuming/closing/panicking; one close callback in the handler configurations, two in the handler-less one); every interleaving is a clock assignment; exactly-once, ordering and no-overlap monitors are decided as safety queries, 'everything torn down' as a quiescence query; Detach (sequential): the descriptor is not closed, also when the peer's hang-up was delivered first, everything else torn down once.",
    note=PO_NOTE, ref="5.7"),
  "C06": dict(cat="model_checking", tech="partial-order (event/clock) SMT encoding of per-thread symbolic executions of go/ssa",
    text="inputAck/onRequest/onProcess/SetOnRequest/onConnect hand-off executed symbolically per thread for 2 deliveries, SetOnRequest racing a delivery, OnConnect still running, delivery + hang-up; mutual exclusion of handler invocations (safety) and 'no quiescent state with stranded input' (quiescence with maximality).",
@@ -46,10 +46,10 @@ CLAIMED.update({
 })
 CLAIMED.update({
  "C04": dict(cat="model_checking", tech="bounded symbolic execution of go/ssa + SMT; decomposed send/receive path over real LinkBuffer code",
-   text="Decomposed as in DESIGN 5.5: GetBytes/iovec construction (1..4 nodes), pollArgs reset, and the send path (flush -> sendmsg with arbitrary short counts/EAGAIN -> outputAck -> write-ready resume) are executed symbolically on the real buffer code; the bytes the kernel ghost received are compared with the bytes written for every size and every kernel answer; the receive half (book/bookAck) is part of the C01 operations.",
+   text="Decomposed as in DESIGN 5.5: GetBytes/iovec construction (1..4 nodes), pollArgs reset, and the send path (flush -> sendmsg with arbitrary short counts/EAGAIN -> outputAck -> write-ready resume) are executed symbolically on the real buffer code; the bytes the kernel ghost received are compared with the bytes written for every size and every kernel answer; the receive half runs through the real connection.inputs/inputAck (book/bookAck on the real input buffer, symbolic bookSize/maxSize) for 3 poller rounds whose kernel answers (n bytes, nothing, error) are solver choices: Len and the bytes read equal what the kernel ghost stored.",
    note=SEQ_NOTE + "; <= 4 iovecs, <= 3 sendmsg answers per flush; receive and send halves are checked separately (no socket in between)", ref="5.5"),
  "C08": dict(cat="model_checking", tech="partial-order (event/clock) SMT encoding of per-thread symbolic executions of go/ssa",
-   text="flush/waitFlush/sendmsg/outputAck/onWrite (rw2r)/onHup/onClose executed symbolically per thread: writer with 1-2 Flush calls vs poller write-ready dispatches, peer drain, write-timer expiry, close; oracle: nil only when the kernel ghost took every byte, error only with close/timeout, writer never left blocked once space/close/expiry holds (quiescence).",
+   text="flush/waitFlush/sendmsg/outputAck/onWrite (rw2r)/onHup/onClose executed symbolically per thread: writer with 1-2 Flush calls vs poller write-ready dispatches, peer drain, write-timer expiry, close, peer hang-up (also with an OnDisconnect callback that waits for the flusher); oracle: nil only when the kernel ghost took every byte, error only with close/timeout, writer never left blocked once space/close/expiry holds (quiescence).",
    note=PO_NOTE + "; byte counts in [1,2^20] in scenarios 0,1,3 and in [1,4] in scenarios 2,4,5 (measured: large ranges make those queries time out); timer durations are checked in the sequential deadline harness, not in the partial-order scenarios (there a timer may fire at any moment)", ref="5.10"),
  "C13": dict(cat="model_checking", tech="bounded symbolic execution of go/ssa + SMT with event injection at the stub boundaries",
    text="server.OnRead/onAccept/OnHup/Close executed sequentially with the racing step (peer hang-up, Shutdown, accept failure incl. the EMFILE back-off ladder with 1..9 failures) injected at every stub boundary by a solver-chosen switch; table of tracked connections compared with the ghost set after every step; Close returns nil only with an empty table, closes every idle connection whatever the table order, never closes a busy one (handler running, unread input, or unsent output), also not in the sweep that lets Close return; a descriptor number re-issued to a newly accepted connection at the close(2) of the old one: the new connection stays tracked.",
